@@ -4,7 +4,7 @@ package c09
 //
 //	case udp discover live <cancel|deadline|close>   DiscoveryRequest blocked waiting for answers; cause = its context is
 //	                                                 cancelled / expires / the server is stopped
-//	case <udp|tcp> srvstop k<N> stop                 N clients each with a request in flight whose handler blocks until its
+//	case <udp|tcp|dtls> srvstop k<N> stop                N clients each with a request in flight whose handler blocks until its
 //	                                                 connection ends; Stop() from three goroutines, then once more:
 //	                                                 Serve must return, every accepted connection's on-close callback must
 //	                                                 have run exactly once, every client request must return
@@ -25,6 +25,9 @@ import (
 	"github.com/plgd-dev/go-coap/v3/message/codes"
 	"github.com/plgd-dev/go-coap/v3/message/pool"
 	"github.com/plgd-dev/go-coap/v3/mux"
+	piondtls "github.com/pion/dtls/v3"
+	dtlsnet "github.com/pion/dtls/v3/pkg/net"
+	coapdtls "github.com/plgd-dev/go-coap/v3/dtls"
 	coapNet "github.com/plgd-dev/go-coap/v3/net"
 	"github.com/plgd-dev/go-coap/v3/options"
 	"github.com/plgd-dev/go-coap/v3/tcp"
@@ -32,6 +35,20 @@ import (
 	"github.com/plgd-dev/go-coap/v3/udp"
 	udpclient "github.com/plgd-dev/go-coap/v3/udp/client"
 )
+
+// firstWriteOnly lets the first datagram (the ClientHello) through and loses everything written afterwards: the
+// server-side handshake with this peer never completes.
+type firstWriteOnly struct {
+	net.Conn
+	writes atomic.Int32
+}
+
+func (c *firstWriteOnly) Write(b []byte) (int, error) {
+	if c.writes.Add(1) == 1 {
+		return c.Conn.Write(b)
+	}
+	return len(b), nil
+}
 
 type onCloseCounter struct {
 	mu sync.Mutex
@@ -102,6 +119,16 @@ func runServerStop(transport string, k int) (line string) {
 			options.WithOnNewConn(func(cc *udpclient.Conn) { counter.add(func(f func()) { cc.AddOnClose(f) }) }))
 		go func() { served <- s.Serve(l) }()
 		stop, addr = s.Stop, l.LocalAddr().String()
+	} else if transport == "dtls" {
+		l, err := coapNet.NewDTLSListener("udp4", "127.0.0.1:0", pskConfig())
+		if err != nil {
+			return "conn-error"
+		}
+		defer l.Close()
+		s := coapdtls.NewServer(options.WithMux(r), options.WithErrors(func(error) {}),
+			options.WithOnNewConn(func(cc *udpclient.Conn) { counter.add(func(f func()) { cc.AddOnClose(f) }) }))
+		go func() { served <- s.Serve(l) }()
+		stop, addr = s.Stop, l.Addr().String()
 	} else {
 		l, err := coapNet.NewTCPListener("tcp4", "127.0.0.1:0")
 		if err != nil {
@@ -114,6 +141,32 @@ func runServerStop(transport string, k int) (line string) {
 		stop, addr = s.Stop, l.Addr().String()
 	}
 	time.Sleep(30 * time.Millisecond)
+	if transport == "dtls" {
+		// two peers that send a ClientHello and lose everything afterwards: their handshakes are in progress at Stop()
+		stallCtx, stallCancel := context.WithCancel(context.Background())
+		defer stallCancel()
+		for i := 0; i < 2; i++ {
+			raw, err := net.Dial("udp4", addr)
+			if err != nil {
+				return "conn-error"
+			}
+			defer raw.Close()
+			st := &firstWriteOnly{Conn: raw}
+			xc, err := piondtls.Client(dtlsnet.PacketConnFromConn(st), raw.RemoteAddr(), pskConfig())
+			if err != nil {
+				return "conn-error"
+			}
+			go func() {
+				_ = xc.HandshakeContext(stallCtx)
+				_ = xc.Close()
+			}()
+			deadline := time.Now().Add(time.Second)
+			for st.writes.Load() == 0 && time.Now().Before(deadline) {
+				time.Sleep(5 * time.Millisecond)
+			}
+		}
+		time.Sleep(30 * time.Millisecond)
+	}
 	// clients with a request in flight
 	type cl interface {
 		Get(ctx context.Context, path string, opts ...message.Option) (*pool.Message, error)
@@ -128,6 +181,8 @@ func runServerStop(transport string, k int) (line string) {
 		var err error
 		if transport == "udp" {
 			c, err = udp.Dial(addr)
+		} else if transport == "dtls" {
+			c, err = coapdtls.Dial(addr, pskConfig())
 		} else {
 			c, err = tcp.Dial(addr)
 		}
